@@ -35,6 +35,28 @@ pub fn conjuring_probes() -> Vec<(String, String, String)> {
             twin.clone(),
         ));
     }
+    // the hidden helper behind `unsize!` turns any raw-pointer function into a pointer conversion: it
+    // must stay uncallable without `unsafe`
+    for (cls, body) in [
+        ("__coerce_unchecked called directly on a Gc", "let g = Gc::new(mc, 7u64); let t: Gc<guarded::Token> = gc_arena::__CoercePtrInternal::__coerce_unchecked(g, |p: *const u64| p.cast::<guarded::Token>()); let _n = t.proof_of_work(); println!(\"SOME\");"),
+        ("__coerce_unchecked called directly on a GcWeak", "let g = Gc::downgrade(Gc::new(mc, 7u64)); let t: GcWeak<guarded::Token> = gc_arena::__CoercePtrInternal::__coerce_unchecked(g, |p: *const u64| p.cast::<guarded::Token>()); if let Some(t) = t.upgrade(mc) { let _n = t.proof_of_work(); println!(\"SOME\"); } else { println!(\"NONE\"); }"),
+    ] {
+        v.push((cls.to_string(), mk(body), twin.clone()));
+    }
+    // a downstream crate must not be able to supply the fat/thin conversion of a pointer kind the
+    // library hands out: `unsize!` keeps the allocation's `UnitPtrMeta`, for which the library itself
+    // only provides the sized impl
+    {
+        let items = "use gc_arena::meta::{PtrMeta, UnitPtrMeta};\ntrait Tr { fn hello(&self) -> u32; }\nstruct Foo(u32);\nimpl Tr for Foo { fn hello(&self) -> u32 { self.0 } }\nstatic DECOY: Foo = Foo(999);\n";
+        let imp = "impl PtrMeta<dyn Tr, ()> for UnitPtrMeta {\n    type PtrMetadata = ();\n    type Thin = ();\n    fn to_thin(_tm: &'static (), fat: *const dyn Tr) -> *const () { fat as *const () }\n    fn from_thin(_tm: &'static (), _thin: *const (), _m: ()) -> *const dyn Tr { &DECOY as &dyn Tr as *const dyn Tr }\n}\n";
+        let bad = format!("{PRELUDE}\n{items}{imp}\nfn main() {{ rootless_mutate(|mc| {{ let g = Gc::new_static(mc, Foo(1)); let d: Gc<'_, dyn Tr> = gc_arena::unsize!(g => dyn Tr); let t = Gc::as_thin(d); if t.hello() == 1 {{ println!(\"NONE\"); }} else {{ println!(\"SOME {{}}\", t.hello()); }} }}); }}\n");
+        let good = format!("{PRELUDE}\n{items}\nfn main() {{ rootless_mutate(|mc| {{ let g = Gc::new_static(mc, Foo(1)); let d: Gc<'_, dyn Tr> = gc_arena::unsize!(g => dyn Tr); println!(\"SOME {{}}\", d.hello()); }}); }}\n");
+        v.push(("downstream PtrMeta impl for the pointer kind of an unsized view (as_thin dereferences elsewhere)".to_string(), bad, good));
+        let imp2 = imp.replace("dyn Tr", "[u8]").replace("&DECOY as &[u8] as *const [u8]", "&DECOYS[..] as *const [u8]");
+        let bad2 = format!("{PRELUDE}\nuse gc_arena::meta::{{PtrMeta, UnitPtrMeta}};\nstatic DECOYS: [u8; 3] = [9, 9, 9];\n{imp2}\nfn main() {{ rootless_mutate(|mc| {{ let g = Gc::new(mc, [1u8, 2]); let d: Gc<'_, [u8]> = gc_arena::unsize!(g => [u8]); let t = Gc::as_thin(d); if t.len() == 2 && t[0] == 1 {{ println!(\"NONE\"); }} else {{ println!(\"SOME {{}}\", t.len()); }} }}); }}\n");
+        let good2 = format!("{PRELUDE}\nfn main() {{ rootless_mutate(|mc| {{ let g = Gc::new(mc, [1u8, 2]); let d: Gc<'_, [u8]> = gc_arena::unsize!(g => [u8]); println!(\"SOME {{}}\", d.len()); }}); }}\n");
+        v.push(("downstream PtrMeta impl for the pointer kind of an unsized slice view".to_string(), bad2, good2));
+    }
     // the exported macros contain unsafe blocks: no caller-supplied expression may be evaluated inside
     // one (an unsafe call in a macro operand must stay an error in a program without `unsafe`)
     let macro_items = "use gc_arena::lock::RefLock; use gc_arena::barrier::{Write, field, unlock}; use gc_arena::unsize;\n#[derive(Collect)]\n#[collect(no_drop)]\nstruct Nd<'gc> { f: RefLock<Option<Gc<'gc, u8>>> }\n";
